@@ -138,6 +138,29 @@ def _array_twin(d):
 
 
 FREE_UNITS["array_input"] = _array_twin(FREE_UNITS["slice_input"])
+# `&'src str`: only the functions Verus can reason about (span construction and the whole-buffer slice); next_maybe
+# (chars() / len_utf8) and slice / slice_from / span_from (byte indexing and byte length of str) are outside Verus and
+# stay with the bounded Kani harnesses str_input_b4 / str_slice_b4
+_STR_IN = r"^impl<'src> Input<'src> for &'src str \{"
+_STR_SL = r"^impl<'src> SliceInput<'src> for &'src str \{"
+FREE_UNITS["str_input"] = {
+    "props": ["C07", "C10"],
+    "generics": "<'src>",
+    "assoc": {
+        "Self::Cursor": ("usize", "src/input.rs", _STR_IN, r"type Cursor = usize;"),
+        "Self::Span": ("SimpleSpan<usize>", "src/input.rs", _STR_IN, r"type Span = SimpleSpan<usize>;"),
+        "Self::Cache": ("&'src str", "src/input.rs", _STR_IN, r"type Cache = Self;"),
+        "Self::Slice": ("&'src str", "src/input.rs", _STR_SL, r"type Slice = &'src str;"),
+    },
+    "types": FREE_UNITS["slice_input"]["types"],
+    "impls": FREE_UNITS["slice_input"]["impls"],
+    "fns": [
+        ("src/input.rs", _STR_IN, "span", "    ensures r.start == *range.start, r.end == *range.end, *final(_this) == *old(_this),"),
+        ("src/input.rs", _STR_SL, "full_slice", "    ensures r@ == old(this)@, *final(this) == *old(this),"),
+    ],
+    "prelude": FREE_UNITS["slice_input"]["prelude"],
+    "note": "trait-impl methods of `&'src str` lifted to free functions generic over <'src> as for the slice unit; only `span` and `full_slice` (the rest of this impl needs byte-level reasoning about str, which Verus does not offer)",
+}
 # the collecting container the statement of C02 speaks about ("the collected vector"): the real trait taken whole, the
 # real impl for Vec<T> taken whole with the contract spliced in - pushing appends exactly the item, for vectors of
 # every length; a fresh container is empty
